@@ -38,7 +38,7 @@ RULE = ('handler programs: bodies of <= 2 ops over 9 atoms {noop, inner raise-an
         'path state x body x remove callable x class; raise_with_cause: active x explicit cause x '
         'target class x handler shape. non-trivial = non-empty body / an exception is involved; distinct '
         'by the whole case')
-REQUIRED_CLAUSES = ['sre-outcome', 'sre-identity', 'sre-traceback-tail', 'sre-log-count',
+REQUIRED_CLAUSES = ['sre-body-raises-chained-exception', 'sre-outcome', 'sre-identity', 'sre-traceback-tail', 'sre-log-count',
                     'sre-log-mentions-original', 'sre-k9-regime',
                     'filter-suppressed', 'filter-same-object', 'filter-traceback-tail',
                     'rpoe-path-removed', 'rpoe-same-object', 'rpoe-path-stays',
@@ -207,6 +207,8 @@ class _State:
         self.orig = None
         self.cause = None
 
+    new_style = 'plain'
+
     def fresh(self):
         e = Fresh('fresh-%d.' % len(self.created))
         self.created.append(e)
@@ -238,7 +240,14 @@ def _run_body(SRE, st, ctxt, body):
             except Inner:
                 pass
         elif k == 'new':
-            _raise_fresh(st.fresh())
+            e = st.fresh()
+            if st.new_style == 'from_active':       # what "raise X from <the exception being handled>" / raise_with_cause leave
+                e.__cause__ = sys.exc_info()[1]
+                e.__suppress_context__ = True
+            elif st.new_style == 'from_none':
+                e.__cause__ = None
+                e.__suppress_context__ = True
+            _raise_fresh(e)
         elif k == 'off':
             ctxt.reraise = False
         elif k == 'on':
@@ -323,8 +332,11 @@ def _eval_sre(ctx, case):
     body, rr, cls = case['body'], bool(case['reraise']), case['cls']
     exp = model.run(body, rr)
     st = _State()
+    st.new_style = case.get('new_style', 'plain')
     got = _execute(excutils.save_and_reraise_exception, st, cls, rr, body)
-    ctx.case(('sre', body, rr, cls), nontrivial=len(body) > 0)
+    ctx.case(('sre', body, rr, cls, st.new_style), nontrivial=len(body) > 0)
+    if st.new_style != 'plain':
+        ctx.clause('sre-body-raises-chained-exception')
     _OPS.update(exp.ops)
     if ctx.replay:
         _flush(ctx)
@@ -410,7 +422,8 @@ def make_site(cls):
 # ---------------------------------------------------------------------
 # exception_filter
 # ---------------------------------------------------------------------
-FILTER_MAKES = ['constructor', 'decorator', 'method', 'callable-object', 'method-equal-instances']
+FILTER_MAKES = ['constructor', 'decorator', 'method', 'callable-object', 'method-equal-instances',
+                'method-used-then-copied', 'method-override-after-super', 'method-state-changed-after-use']
 FILTER_USES = ['with', 'with-in-except', 'with-no-exception', 'call-active', 'call-active-after-inner',
                'call-inactive', 'call-other-active']
 PREDS = ['true', 'false', 'truthy-str', 'falsy-none', 'falsy-zero', 'isinstance-Exception',
@@ -532,6 +545,47 @@ def _make_filter(make, pred, codes):
         _keepalive.append(second)
         del _keepalive[:-40]
         return second.flt
+    opposite = 'false' if pred != 'false' else 'true'
+    if make == 'method-used-then-copied':
+        # an instance uses its filter, is copied, and the copy filters by its own state
+        import copy
+        first = _holder()(opposite, codes)
+        with first.flt:
+            pass
+        try:
+            first.flt(Other('warm-up'))
+        except Other:
+            pass
+        second = copy.copy(first)
+        second.pred = pred
+        _keepalive.append(first)
+        del _keepalive[:-40]
+        return second.flt
+    if make == 'method-override-after-super':
+        # a subclass overrides the filter; the parent's filter is reached through super() on the instance first
+        from oslo_utils import excutils
+        Holder = _holder()
+
+        class Sub(Holder):
+            @excutils.exception_filter
+            def flt(self, ex):
+                return _pred_eval(self.sub_pred, ex, self.codes)
+
+            def parent_filter(self):
+                return super().flt
+        inst = Sub(opposite, codes)          # the parent's predicate reads self.pred = the opposite
+        inst.sub_pred = pred
+        with inst.parent_filter():
+            pass
+        return inst.flt
+    if make == 'method-state-changed-after-use':
+        inst = _holder()(opposite, codes)
+        try:
+            inst.flt(Other('warm-up'))
+        except Other:
+            pass
+        inst.pred = pred
+        return inst.flt
     raise ValueError(make)
 
 
@@ -639,7 +693,7 @@ def _eval_filter(ctx, case):
 # ---------------------------------------------------------------------
 # remove_path_on_error
 # ---------------------------------------------------------------------
-RPOE_STATES = ['file', 'absent', 'created-in-body', 'symlink', 'odd-name']
+RPOE_STATES = ['file', 'absent', 'created-in-body', 'symlink', 'odd-name', 'dangling-symlink', 'symlink-to-dir']
 RPOE_REMOVES = ['default', 'custom-unlink', 'custom-raises', 'custom-raises-after-unlink', 'custom-reentrant']
 RPOE_BODIES = ['raise', 'complete', 'raise-in-except']
 RPOE_CLASSES = ['plain', 'need', 'chained', 'pre', 'key', 'oserror', 'fnf-naming-path', 'base']
@@ -671,6 +725,11 @@ def _eval_rpoe(ctx, case):
     elif state == 'symlink':
         with open(target, 'w') as f:
             f.write('t')
+        os.symlink(target, path)
+    elif state == 'dangling-symlink':
+        os.symlink(target, path)            # the target never exists: the path itself does (lexists) and must go
+    elif state == 'symlink-to-dir':
+        os.makedirs(target, exist_ok=True)
         os.symlink(target, path)
     st = _State()
     if cls == 'fnf-naming-path':
@@ -792,6 +851,8 @@ def _eval_rpoe(ctx, case):
     finally:
         for p in (path, target):
             try:
+                if os.path.isdir(p) and not os.path.islink(p):
+                    os.rmdir(p)
                 if os.path.lexists(p):
                     os.unlink(p)
             except OSError:
@@ -929,6 +990,9 @@ def run(ctx):
                     idx += 1
                     if idx % ctx.nshards == ctx.shard:
                         case = {'kind': 'sre', 'body': body, 'reraise': rr, 'cls': cls}
+                        if 'new' in repr(body):
+                            # how the body's own exception is raised: bare, "from" the one being handled, "from None"
+                            case['new_style'] = ('plain', 'from_active', 'from_none')[(n + idx) % 3]
                         if n % 997 == 1:
                             ctx.sample(klass, case)
                         _eval_sre(ctx, case)
